@@ -109,6 +109,34 @@ def check_decode(dex, cm, raw, septs, acc, full_tails=False):
     return
 
 
+def check_buffered(dex, cm, raw, septs, pos, acc):
+    """the number sits at byte offset `pos` of a stream read through io.BufferedReader; a first read at offset 0 fills the
+    8 KiB buffer, then the reader seeks to pos; after the number a second (3-septet) number must decode from the same stream"""
+    k = len(raw)
+    second = bytes([0xac, 0x82, 0x05])          # uleb 82220 / sleb 82220
+    data = b"\x00" * pos + raw + second + b"\x00" * 16
+    for fn, name, ref in ((dex.readuleb128, "uleb", ref_uleb), (dex.readsleb128, "sleb", ref_sleb), (dex.readuleb128p1, "ulebp1", lambda s: ref_uleb(s) - 1)):
+        if k == 5 and name == "sleb" and not in_domain_s(septs, raw[4]):
+            continue
+        f = io.BufferedReader(io.BytesIO(data))
+        try:
+            f.read(1)
+            f.seek(pos)
+            got = fn(cm, f)
+            used = f.tell() - pos
+            got2 = dex.readuleb128(cm, f)
+        except Exception as e:      # noqa
+            got, used, got2 = "EXC:%s" % type(e).__name__, -1, None
+        want = ref(septs)
+        acc.n += 1
+        if got != want or used != k or got2 != 82220:
+            acc.violation("decode:%s:len%d:buffered-reader-chunk-boundary" % (name, k),
+                          {"op": "buffered", "bytes": raw.hex(), "pos": pos},
+                          "%s(%s) at stream offset %d of a BufferedReader -> %r consumed %r, next number %r; expected %r consumed %d, next 82220"
+                          % (name, raw.hex(), pos, got, used, got2, want, k))
+        acc.nt.add(("b", name, raw, pos).__hash__())
+
+
 def shards(ctx):
     s = [("dec12",)]
     s += [("dec3", a) for a in range(128)]
@@ -116,6 +144,7 @@ def shards(ctx):
         s += [("dec4", a, b) for a in range(128) for b in range(0, 128, 8)]
     s += [("dec45", a) for a in SEPT]
     s += [("fifth", a) for a in range(0, 256, 16)]
+    s += [("buffered", k) for k in range(1, 6)]
     s += [("enc16", lo) for lo in range(0, 1 << 16, 1 << 12)]
     s += [("encb",), ("encsept",)]
     return s
@@ -240,6 +269,17 @@ def run_shard(ctx, shard):
                 check_decode(dex, cm, raw, list(pre) + [f5 & 0x7f], acc)
                 acc.nt.add(("5", raw).__hash__())
         acc.sample({"decode": (encode_seq([0x7f] * 4, True) + bytes([shard[1] + 15])).hex(), "note": "5-byte form, every 5th byte"})
+    elif kind == "buffered":
+        # the real parser reads through io.BufferedReader (8 KiB chunks): numbers of k septets over the septet alphabet placed at
+        # every position around the chunk boundary, reached after a seek (history of the stream), followed by a second number
+        k = shard[1]
+        for septs in itertools.product(SEPT if k < 4 else SEPT[:5], repeat=k):
+            if k == 5 and septs[4] > 0x0f:
+                continue
+            raw = encode_seq(list(septs))
+            for pos in range(8192 - 7, 8192 + 2):
+                check_buffered(dex, cm, raw, list(septs), pos, acc)
+        acc.sample({"buffered_reader": {"septets": k, "positions": "8185..8193", "second_number_follows": True}})
     else:
         for v in _enc_cases(kind, shard[1] if len(shard) > 1 else 0):
             check_encode(dex, cm, v, acc)
@@ -252,7 +292,10 @@ def run_shard(ctx, shard):
 def replay(ctx, w):
     dex, cm = _cm()
     acc = Acc()
-    if w["op"] == "decode":
+    if w["op"] == "buffered":
+        raw = bytes.fromhex(w["bytes"])
+        check_buffered(dex, cm, raw, [x & 0x7f for x in raw], w["pos"], acc)
+    elif w["op"] == "decode":
         raw = bytes.fromhex(w["bytes"])
         septs = [x & 0x7f for x in raw]
         check_decode(dex, cm, raw, septs, acc, full_tails=True)
